@@ -158,6 +158,22 @@ def main():
         det = d["detail"]
         chk.violation("%s|%s|%s|%s" % (det.get("proc"), det.get("first_proc"), det.get("position"), det.get("depth")), d["what"], d,
                       replay={"kind": "session-events", "events": tf, "line": d.get("at")})
+    # the move-ordering memories themselves (OrderingTables.tla): random operations on the real tables, every step validated;
+    # a history reset that leaves something behind is a C12 violation, any other mismatch is drift of the CodeView
+    hb = vlib.build_harness("dev")
+    of = os.path.join(chk.outdir, "ordering.ndjson")
+    vlib.harness(hb, ["ordering", chk.seed, 4000 if q else 20000, of])
+    ot = vlib.tlc("Trace_Ordering", env={"TRACE": of}, timeout=1800, xmx="3g")
+    if ot.error or not ot.ok:
+        raise vlib.ToolError("Trace_Ordering: " + (ot.error or ot.stdout[-1500:]))
+    for d in ot.viols("ORD"):
+        det = d.get("detail") or {}
+        if isinstance(det, dict) and det.get("op") == "reset":
+            chk.violation("ordering-reset|%s" % json.dumps(det.get("got")), "history-not-cleared-by-reset", d,
+                          replay={"kind": "ordering-trace", "events": of, "line": d.get("at")})
+        else:
+            chk.drift.append({"what": "ordering-table-step", "detail": det, "source": of})
+    chk.cov["ordering_table_operations_validated"] = 4000 if q else 20000
     # bench twice (thorough): total node count must repeat
     if not q:
         counts = []
